@@ -14,11 +14,19 @@ namespace Ps
 /-- offsets of the 8 bits of a sieve byte (bitValues[0..7]) -/
 def bitOffsets : List Nat := Gen.bitValues.take 8
 
+/-- little-endian bits to number -/
+def bitsToNat : List Bool → Nat
+  | [] => 0
+  | b :: bs => b.toNat + 2 * bitsToNat bs
+
+/-- the 8 bits of byte m of the ideal sieve over [start, stop] whose grid starts at `base` -/
+def idealBits (isP : Nat → Bool) (start stop base m : Nat) : List Bool :=
+  bitOffsets.map (fun o =>
+    decide (start ≤ base + 30 * m + o) && decide (base + 30 * m + o ≤ stop) && isP (base + 30 * m + o))
+
 /-- byte m of the ideal sieve over [start, stop] whose grid starts at `base` -/
 def idealByte (isP : Nat → Bool) (start stop base m : Nat) : Nat :=
-  (bitOffsets.zipIdx.map (fun ob =>
-    let n := base + 30 * m + ob.1
-    if start ≤ n ∧ n ≤ stop ∧ isP n then 2 ^ ob.2 else 0)).sum
+  bitsToNat (idealBits isP start stop base m)
 
 /-- number of 1 bits of a byte -/
 def popcount8 (b : Nat) : Nat := ((List.range 8).filter (fun i => b.testBit i)).length
@@ -40,18 +48,28 @@ def smallCounts (start stop flags : Nat) : Counts :=
     (Gen.psSmallPrimes.filter (fun r =>
       r.2.2.1 = i ∧ r.1 ≥ start ∧ r.2.1 ≤ stop ∧ isFlag flags (2 ^ i))).length)
 
+/-- start of the byte grid of a CountPrintPrimes run: Erat::init's segmentLow for max(start,7) -/
+def gridBase (start : Nat) : Nat := max start 7 - byteRemainder (max start 7)
+
+/-- number of sieve bytes of a CountPrintPrimes run over [max(start,7), stop] -/
+def gridBytes (start stop : Nat) : Nat := ((stop - byteRemainder stop) - gridBase start) / 30 + 1
+
+/-- all bytes of the ideal sieve of a CountPrintPrimes run -/
+def sieveBytes (isP : Nat → Bool) (start stop : Nat) : List Nat :=
+  (List.range (gridBytes start stop)).map (idealByte isP (max start 7) stop (gridBase start))
+
+/-- count of kind i (0 primes, 1 twins, …) in one sieve byte: CountPrintPrimes::countPrimes
+    (popcount) resp. kCounts_[i][byte] -/
+def byteCount (i byte : Nat) : Nat :=
+  if i = 0 then popcount8 byte else kCount (Gen.bitmasks.getD i []) byte
+
 /-- CountPrintPrimes over [max(start,7), stop]: counts per kind over all bytes -/
 def sieveCounts (isP : Nat → Bool) (start stop flags : Nat) : Counts :=
-  let s7 := max start 7
-  if s7 > stop then List.replicate 6 0
+  if max start 7 > stop then List.replicate 6 0
   else
-    let base := s7 - byteRemainder s7
-    let nbytes := ((stop - byteRemainder stop) - base) / 30 + 1
-    let bytes := (List.range nbytes).map (idealByte isP s7 stop base)
+    let bytes := sieveBytes isP start stop
     (List.range 6).map (fun i =>
-      if !isFlag flags (2 ^ i) then 0
-      else if i = 0 then (bytes.map popcount8).sum
-      else (bytes.map (kCount (Gen.bitmasks.getD i []))).sum)
+      if !isFlag flags (2 ^ i) then 0 else (bytes.map (byteCount i)).sum)
 
 /-- PrimeSieve::sieve(): counts of one (single-threaded) run -/
 def primeSieveCounts (isP : Nat → Bool) (start stop flags : Nat) : Counts :=
@@ -60,5 +78,57 @@ def primeSieveCounts (isP : Nat → Bool) (start stop flags : Nat) : Counts :=
     let small := if start ≤ 5 then smallCounts start stop flags else List.replicate 6 0
     let big := if stop ≥ 7 then sieveCounts isP start stop flags else List.replicate 6 0
     List.zipWith (· + ·) small big
+
+/-! ### printing (PRINT_PRIMES = 64 << 0 … PRINT_SEXTUPLETS = 64 << 5) -/
+
+/-- `nextPrime(bits, low)` for every 1 bit of a byte, ascending: low + bitValues[k] -/
+def byteNumbers (byte low : Nat) : List Nat :=
+  (bitOffsets.zipIdx.filter (fun ok => byte.testBit ok.2)).map (fun ok => low + ok.1)
+
+/-- "(a, b, c)" -/
+def tupleStr (l : List Nat) : String := "(" ++ ", ".intercalate (l.map toString) ++ ")"
+
+/-- CountPrintPrimes::printkTuplets for one byte: one line per bitmask of row i contained in it -/
+def byteTuplets (row : List Nat) (byte low : Nat) : List (List Nat) :=
+  ((row.takeWhile (fun b => b ≤ byte)).filter (fun b => byte &&& b = b)).map (fun b => byteNumbers b low)
+
+/-- lines printed by processSmallPrimes -/
+def smallLines (start stop flags : Nat) : List String :=
+  (Gen.psSmallPrimes.filter (fun r =>
+      r.1 ≥ start ∧ r.2.1 ≤ stop ∧ isFlag flags (64 * 2 ^ r.2.2.1))).map (fun r => r.2.2.2)
+
+/-- the kind that printkTuplets prints: the first i ≥ 1 with isPrint(i) -/
+def printKind (flags : Nat) : Nat :=
+  ((List.range 6).filter (fun i => i ≥ 1 ∧ isFlag flags (64 * 2 ^ i))).headD 0
+
+/-- numbers printed by printPrimes over all bytes -/
+def sievePrimeNumbers (isP : Nat → Bool) (start stop : Nat) : List Nat :=
+  if max start 7 > stop then []
+  else
+    ((List.range (gridBytes start stop)).map (fun m =>
+      byteNumbers (idealByte isP (max start 7) stop (gridBase start) m) (gridBase start + 30 * m))).flatten
+
+/-- tuplets printed by printkTuplets over all bytes -/
+def sieveTuplets (isP : Nat → Bool) (start stop kind : Nat) : List (List Nat) :=
+  if max start 7 > stop then []
+  else
+    ((List.range (gridBytes start stop)).map (fun m =>
+      byteTuplets (Gen.bitmasks.getD kind []) (idealByte isP (max start 7) stop (gridBase start) m)
+        (gridBase start + 30 * m))).flatten
+
+/-- PrimeSieve::sieve() with print flags: the lines written to stdout (single-threaded; per
+    segment primes are printed before k-tuplets, so with both flags the output interleaves per
+    segment — the public API only ever sets one print flag, and so does this model) -/
+def primeSievePrint (isP : Nat → Bool) (start stop flags : Nat) : List String :=
+  if start > stop then []
+  else
+    let small := if start ≤ 5 then smallLines start stop flags else []
+    let big :=
+      if stop ≥ 7 then
+        if isFlag flags 64 then (sievePrimeNumbers isP start stop).map toString
+        else if printKind flags ≥ 1 then (sieveTuplets isP start stop (printKind flags)).map tupleStr
+        else []
+      else []
+    small ++ big
 
 end Ps
